@@ -7,6 +7,7 @@ import itertools
 import numpy as np
 
 import impl
+import ref as R
 from impl import spne
 from corr import harness
 
@@ -18,6 +19,26 @@ def _shape(r, lo=5, hi=9):
     return ny, nx
 
 
+def _with_inner(old, val, g):
+    out = np.array(old, copy=True)
+    out[R.inner(out, g)] = val
+    return out
+
+
+def _ref_outplane(b, p, reset):
+    out = np.array(b["curl"], copy=True)
+    if reset:
+        out[:, R.ring_mask(out.shape[1:], 1)] = 0
+    out[(slice(None),) + R.inner(b["field"], 1)] = p * R.curl2_out(b["field"])
+    return out
+
+
+def _ref_advflux(b, p):
+    out = np.array(b["advection_flux"], copy=True)
+    out[2:-2, 2:-2] += p * R.eno3_divergence(b["field"], b["velocity"])
+    return out
+
+
 def wrapper_cases(seed, tier, real_t=np.float64):
     cases = []
     nrep = 1 if tier == "quick" else 3
@@ -25,10 +46,13 @@ def wrapper_cases(seed, tier, real_t=np.float64):
         r = impl.rng(seed, "w2d", rep)
 
         def A(*shape):
+            if r.random() < 0.6:
+                return harness.padded(r, shape, real_t)
             return r.normal(size=shape).astype(real_t)
 
-        def add(prog, args, bufs, run, label):
-            cases.append({"prog": prog, "args": args, "bufs": bufs, "run": run, "label": label, "real_t": real_t})
+        def add(prog, args, bufs, run, label, numpy_regions=None, ref=None):
+            cases.append({"prog": prog, "args": args, "bufs": bufs, "run": run, "label": label, "real_t": real_t,
+                          "pads": harness.take_pads(), "numpy_regions": numpy_regions, "ref": ref})
 
         ny, nx = _shape(r)
         sz = {"ny": ny, "nx": nx}
@@ -45,7 +69,8 @@ def wrapper_cases(seed, tier, real_t=np.float64):
             f = A(ny, nx); v = float(r.normal())
             k = spne.gen_set_fixed_val_at_boundaries_pyst_kernel_2d(real_t=real_t, width=w)
             add("set_boundary_2d", {**sz, "width": w, "fixed_val": real_t(v)}, {"field": f},
-                lambda k=k, f=f, v=v: k(field=f, fixed_val=v), f"set_fixed_val_at_boundaries_2d[w={w}]")
+                lambda k=k, f=f, v=v: k(field=f, fixed_val=v), f"set_fixed_val_at_boundaries_2d[w={w}]",
+            ref=lambda b, w=w, v=v: {"field": np.where(R.ring_mask(b["field"].shape, w), v, b["field"])})
             vf = A(2, ny, nx); vv = [float(x) for x in r.normal(size=2)]
             k = spne.gen_set_fixed_val_at_boundaries_pyst_kernel_2d(real_t=real_t, width=w, field_type="vector")
             add("set_boundary_vec_2d", {**sz, "width": w, "vx": real_t(vv[0]), "vy": real_t(vv[1])}, {"vector_field": vf},
@@ -65,7 +90,8 @@ def wrapper_cases(seed, tier, real_t=np.float64):
         k = spne.gen_elementwise_saxpby_pyst_kernel_2d(real_t=real_t)
         add("elementwise_saxpby_2d", {**sz, "pa": real_t(pa), "pb": real_t(pb)}, {"sum_field": o, "field_1": a, "field_2": b},
             lambda k=k, a=a, b=b, o=o, pa=pa, pb=pb: k(sum_field=o, field_1=a, field_2=b, field_1_prefac=pa, field_2_prefac=pb),
-            "elementwise_saxpby_2d")
+            "elementwise_saxpby_2d",
+            ref=lambda b, pa=pa, pb=pb: {"sum_field": pa * b["field_1"] + pb * b["field_2"]})
         a, o = A(ny, nx), A(ny, nx); v = float(r.normal())
         k = spne.gen_add_fixed_val_pyst_kernel_2d(real_t=real_t)
         add("add_fixed_val_2d", {**sz, "fixed_val": real_t(v)}, {"sum_field": o, "field": a},
@@ -73,63 +99,74 @@ def wrapper_cases(seed, tier, real_t=np.float64):
         va, vo = A(2, ny, nx), A(2, ny, nx); vv = [float(x) for x in r.normal(size=2)]
         k = spne.gen_add_fixed_val_pyst_kernel_2d(real_t=real_t, field_type="vector")
         add("add_fixed_val_vec_2d", {**sz, "vx": real_t(vv[0]), "vy": real_t(vv[1])}, {"sum_field": vo, "vector_field": va},
-            lambda k=k, va=va, vo=vo, vv=vv: k(sum_field=vo, vector_field=va, fixed_vals=vv), "add_fixed_val_2d[vector]")
+            lambda k=k, va=va, vo=vo, vv=vv: k(sum_field=vo, vector_field=va, fixed_vals=vv), "add_fixed_val_2d[vector]",
+            ref=lambda b, vv=vv: {"sum_field": b["vector_field"] + np.array(vv).reshape(2, 1, 1)})
         # differential wrappers
         for reset in (True, False):
             a, o = A(ny, nx), A(ny, nx); p = float(r.uniform(0.1, 2))
             k = spne.gen_diffusion_flux_pyst_kernel_2d(real_t=real_t, reset_ghost_zone=reset)
             add("diffusion_flux_2d", {**sz, "reset": reset, "prefactor": real_t(p)}, {"diffusion_flux": o, "field": a},
-                lambda k=k, a=a, o=o, p=p: k(diffusion_flux=o, field=a, prefactor=p), f"diffusion_flux_2d[reset={reset}]")
+                lambda k=k, a=a, o=o, p=p: k(diffusion_flux=o, field=a, prefactor=p), f"diffusion_flux_2d[reset={reset}]",
+            ref=lambda b, p=p, reset=reset: {"diffusion_flux": R.laplacian_flux(b["field"], p, b["diffusion_flux"], reset)})
             a, vo = A(ny, nx), A(2, ny, nx); p = float(r.uniform(0.1, 2))
             k = spne.gen_outplane_field_curl_pyst_kernel_2d(real_t=real_t, reset_ghost_zone=reset)
             add("outplane_curl_2d", {**sz, "reset": reset, "prefactor": real_t(p)}, {"curl": vo, "field": a},
-                lambda k=k, a=a, vo=vo, p=p: k(curl=vo, field=a, prefactor=p), f"outplane_field_curl_2d[reset={reset}]")
+                lambda k=k, a=a, vo=vo, p=p: k(curl=vo, field=a, prefactor=p), f"outplane_field_curl_2d[reset={reset}]",
+            ref=lambda b, p=p, reset=reset: {"curl": _ref_outplane(b, p, reset)})
         a, o, vel = A(ny, nx), A(ny, nx), A(2, ny, nx); p = float(r.uniform(0.1, 2))
         if rep % 2 == 1:
             vel = (np.sign(vel) * r.integers(0, 3, size=vel.shape)).astype(real_t)
         k = spne.gen_advection_flux_conservative_eno3_pyst_kernel_2d(real_t=real_t)
         add("advection_flux_2d", {**sz, "inv_dx": real_t(p)}, {"advection_flux": o, "field": a, "velocity": vel},
-            lambda k=k, a=a, o=o, vel=vel, p=p: k(advection_flux=o, field=a, velocity=vel, inv_dx=p), "advection_flux_eno3_2d")
+            lambda k=k, a=a, o=o, vel=vel, p=p: k(advection_flux=o, field=a, velocity=vel, inv_dx=p), "advection_flux_eno3_2d",
+            ref=lambda b, p=p: {"advection_flux": _ref_advflux(b, p)})
         va, o = A(2, ny, nx), A(ny, nx); p = float(r.uniform(0.1, 2))
         k = spne.gen_inplane_field_curl_pyst_kernel_2d(real_t=real_t)
         add("inplane_curl_2d", {**sz, "prefactor": real_t(p)}, {"curl": o, "field": va},
-            lambda k=k, va=va, o=o, p=p: k(curl=o, field=va, prefactor=p), "inplane_field_curl_2d")
+            lambda k=k, va=va, o=o, p=p: k(curl=o, field=va, prefactor=p), "inplane_field_curl_2d",
+            ref=lambda b, p=p: {"curl": _with_inner(b["curl"], p * R.curl2_in(b["field"]), 1)})
         w, vf = A(ny, nx), A(2, ny, nx); p = float(r.uniform(0.1, 2))
         k = spne.gen_update_vorticity_from_velocity_forcing_pyst_kernel_2d(real_t=real_t)
         add("update_vorticity_from_forcing_2d", {**sz, "prefactor": real_t(p)}, {"vorticity_field": w, "velocity_forcing_field": vf},
-            lambda k=k, w=w, vf=vf, p=p: k(vorticity_field=w, velocity_forcing_field=vf, prefactor=p), "update_vorticity_from_velocity_forcing_2d")
+            lambda k=k, w=w, vf=vf, p=p: k(vorticity_field=w, velocity_forcing_field=vf, prefactor=p), "update_vorticity_from_velocity_forcing_2d",
+            ref=lambda b, p=p: {"vorticity_field": _with_inner(b["vorticity_field"], b["vorticity_field"][1:-1, 1:-1] + p * R.curl2_in(b["velocity_forcing_field"]), 1)})
         w, vp, vu = A(ny, nx), A(2, ny, nx), A(2, ny, nx); p = float(r.uniform(0.1, 2))
         k = spne.gen_update_vorticity_from_penalised_velocity_pyst_kernel_2d(real_t=real_t)
         add("update_vorticity_from_penalised_2d", {**sz, "prefactor": real_t(p)},
             {"vorticity_field": w, "penalised_velocity_field": vp, "velocity_field": vu},
             lambda k=k, w=w, vp=vp, vu=vu, p=p: k(vorticity_field=w, penalised_velocity_field=vp, velocity_field=vu, prefactor=p),
-            "update_vorticity_from_penalised_velocity_2d")
+            "update_vorticity_from_penalised_velocity_2d",
+            ref=lambda b, p=p: {"vorticity_field": _with_inner(b["vorticity_field"], b["vorticity_field"][1:-1, 1:-1] + p * R.curl2_in(b["penalised_velocity_field"] - b["velocity_field"]), 1)})
         # brinkmann
         o, f, pen = A(ny, nx), A(ny, nx), A(ny, nx); chi = r.uniform(0, 1, size=(ny, nx)).astype(real_t); lam = float(r.uniform(0, 50))
         k = spne.gen_brinkmann_penalise_pyst_kernel_2d(real_t=real_t)
         add("brinkmann_2d", {**sz, "penalty_factor": real_t(lam)}, {"penalised_field": o, "field": f, "penalty_field": pen, "char_field": chi},
             lambda k=k, o=o, f=f, pen=pen, chi=chi, lam=lam: k(penalised_field=o, penalty_factor=lam, char_field=chi, penalty_field=pen, field=f),
-            "brinkmann_penalise_2d")
+            "brinkmann_penalise_2d",
+            ref=lambda b, lam=lam: {"penalised_field": (b["field"] + lam * b["char_field"] * b["penalty_field"]) / (1 + lam * b["char_field"])})
         vo, vf, vpen = A(2, ny, nx), A(2, ny, nx), A(2, ny, nx)
         k = spne.gen_brinkmann_penalise_pyst_kernel_2d(real_t=real_t, field_type="vector")
         add("brinkmann_vec_2d", {**sz, "penalty_factor": real_t(lam)},
             {"penalised_vector_field": vo, "vector_field": vf, "penalty_vector_field": vpen, "char_field": chi},
             lambda k=k, vo=vo, vf=vf, vpen=vpen, chi=chi, lam=lam: k(penalised_vector_field=vo, penalty_factor=lam, char_field=chi,
                                                                    penalty_vector_field=vpen, vector_field=vf),
-            "brinkmann_penalise_2d[vector]")
+            "brinkmann_penalise_2d[vector]",
+            ref=lambda b, lam=lam: {"penalised_vector_field": (b["vector_field"] + lam * b["char_field"] * b["penalty_vector_field"]) / (1 + lam * b["char_field"])})
         o, f = A(ny, nx), A(ny, nx); pv = float(r.normal())
         k = spne.gen_brinkmann_penalise_vs_fixed_val_pyst_kernel_2d(real_t=real_t)
         add("brinkmann_fixed_2d", {**sz, "penalty_factor": real_t(lam), "penalty_val": real_t(pv)},
             {"penalised_field": o, "field": f, "char_field": chi},
             lambda k=k, o=o, f=f, chi=chi, lam=lam, pv=pv: k(penalised_field=o, penalty_factor=lam, char_field=chi, penalty_val=pv, field=f),
-            "brinkmann_penalise_vs_fixed_val_2d")
+            "brinkmann_penalise_vs_fixed_val_2d",
+            ref=lambda b, lam=lam, pv=pv: {"penalised_field": (b["field"] + lam * b["char_field"] * pv) / (1 + lam * b["char_field"])})
         vo, vf = A(2, ny, nx), A(2, ny, nx); pvv = [float(x) for x in r.normal(size=2)]
         k = spne.gen_brinkmann_penalise_vs_fixed_val_pyst_kernel_2d(real_t=real_t, field_type="vector")
         add("brinkmann_fixed_vec_2d", {**sz, "penalty_factor": real_t(lam), "vx": real_t(pvv[0]), "vy": real_t(pvv[1])},
             {"penalised_vector_field": vo, "vector_field": vf, "char_field": chi},
             lambda k=k, vo=vo, vf=vf, chi=chi, lam=lam, pvv=pvv: k(penalised_vector_field=vo, penalty_factor=lam, char_field=chi,
                                                                  penalty_val=pvv, vector_field=vf),
-            "brinkmann_penalise_vs_fixed_val_2d[vector]")
+            "brinkmann_penalise_vs_fixed_val_2d[vector]",
+            ref=lambda b, lam=lam, pvv=pvv: {"penalised_vector_field": (b["vector_field"] + lam * b["char_field"] * np.array(pvv).reshape(2, 1, 1)) / (1 + lam * b["char_field"])})
         # characteristic function (level-set values incl. exactly ±blend width)
         eps = float(r.uniform(0.05, 0.5))
         phi = (r.uniform(-3 * eps, 3 * eps, size=(ny, nx))).astype(real_t)
@@ -137,17 +174,20 @@ def wrapper_cases(seed, tier, real_t=np.float64):
         o = A(ny, nx)
         k = spne.gen_char_func_from_level_set_via_sine_heaviside_pyst_kernel_2d(blend_width=eps, real_t=real_t)
         add("char_func_2d", {**sz, "blend_width": eps}, {"char_func_field": o, "level_set_field": phi},
-            lambda k=k, o=o, phi=phi: k(char_func_field=o, level_set_field=phi), "char_func_from_level_set_2d")
+            lambda k=k, o=o, phi=phi: k(char_func_field=o, level_set_field=phi), "char_func_from_level_set_2d",
+            ref=lambda b, eps=eps: {"char_func_field": R.heaviside(b["level_set_field"].astype(np.float64), eps)})
         # time-step kernels
         f, fl = A(ny, nx), A(ny, nx); p = float(r.uniform(0.01, 0.3))
         k = spne.gen_diffusion_timestep_euler_forward_pyst_kernel_2d(real_t=real_t)
         add("diffusion_timestep_2d", {**sz, "nu_dt_by_dx2": real_t(p)}, {"field": f, "diffusion_flux": fl},
-            lambda k=k, f=f, fl=fl, p=p: k(field=f, diffusion_flux=fl, nu_dt_by_dx2=p), "diffusion_timestep_euler_forward_2d")
+            lambda k=k, f=f, fl=fl, p=p: k(field=f, diffusion_flux=fl, nu_dt_by_dx2=p), "diffusion_timestep_euler_forward_2d",
+            ref=lambda b, p=p: {"field": b["field"] + R.laplacian_flux(b["field"], p, np.zeros_like(b["field"]), True)})
         f, fl, vel = A(ny, nx), A(ny, nx), A(2, ny, nx); p = float(r.uniform(0.01, 0.3))
         k = spne.gen_advection_timestep_euler_forward_conservative_eno3_pyst_kernel_2d(real_t=real_t)
         add("advection_timestep_2d", {**sz, "dt_by_dx": real_t(p)}, {"field": f, "advection_flux": fl, "velocity": vel},
             lambda k=k, f=f, fl=fl, vel=vel, p=p: k(field=f, advection_flux=fl, velocity=vel, dt_by_dx=p),
-            "advection_timestep_euler_forward_eno3_2d")
+            "advection_timestep_euler_forward_eno3_2d",
+            ref=lambda b, p=p: {"field": _with_inner(b["field"], b["field"][2:-2, 2:-2] - p * R.eno3_divergence(b["field"], b["velocity"]), 2)})
         # boundary-zone damping
         for w in ([0, 1, 2] if tier == "quick" else [0, 1, 2, 3, 4, 5, 6]):
             ny2, nx2 = _shape(r, 2 * max(w, 2) + 1, 2 * max(w, 2) + 5)
@@ -159,7 +199,9 @@ def wrapper_cases(seed, tier, real_t=np.float64):
             f = A(ny2, nx2)
             k = spne.gen_penalise_field_boundary_pyst_kernel_2d(width=w, dx=dx, x_grid_field=xg, y_grid_field=yg, real_t=real_t)
             add("penalise_boundary_2d", {"ny": ny2, "nx": nx2, "width": w, "dx": dx, "x0": xg[0, 0], "x1": xg[0, -1], "y0": yg[0, 0], "y1": yg[-1, 0]},
-                {"field": f, "x_grid_field": xg, "y_grid_field": yg}, lambda k=k, f=f: k(field=f), f"penalise_field_boundary_2d[w={w}]")
+                {"field": f, "x_grid_field": xg, "y_grid_field": yg}, lambda k=k, f=f: k(field=f), f"penalise_field_boundary_2d[w={w}]", ref=lambda b, w=w: {"field": R.damp(b["field"].astype(np.float64), w, 2)},
+                numpy_regions={"field": [(slice(None), slice(0, w)), (slice(None), slice(nx2 - w, nx2)),
+                                         (slice(0, w), slice(None)), (slice(ny2 - w, ny2), slice(None))] if w else []})
     return cases
 
 
